@@ -1,5 +1,6 @@
 import Mdns.Lemmas.Responder
 import Mdns.Lemmas.ResponderSched
+import Mdns.Lemmas.ResponderAnnounce
 /-
   C07  A name is probed three times before it is announced, then announced twice.
 
@@ -43,6 +44,10 @@ import Mdns.Lemmas.ResponderSched
     records are active is announced with PTR/subtype PTR/SRV/TXT/addresses, becomes `Announced`,
     `RegisterResend` queued for +1000 ms with a timer; `second_announcement`: the re-run sends the
     same record set again, by the invariant);
+  * ANNOUNCED TWICE, for any service and any daemon state (`registration_announced_twice`): with
+    jitter `j ≥ 1`, a timely scheduler and no other input, `register(svc)` at `t0` of a service none
+    of whose unique records is held leads to the announcement (PTR, subtype PTR, SRV, TXT,
+    addresses as answers) in the iteration at `t0+j+750` and again in the one at `t0+j+1750`;
   The statement for every service, interface and start time is `probe_lifecycle_full`.
 
   Findings kept as theorems about the model (= the code, by the correspondence):
@@ -291,6 +296,81 @@ theorem second_announcement (s : State) (now j : Nat) (fullname : BList) (i : My
       Out.send i.index v4 none (announcePkt svc (r0.resolveName svc.fullname) (uniqueRecords svc i r0 v4)) ∈
         (execRegisterResend s now j fullname i.index).2 :=
   registerResend_announces s now j fullname i svc r0 hsvc hreg hfind huniq hprobe hann hsound
+
+/-! ### the whole life cycle, for any service and any daemon state -/
+
+/-- the daemon state right after the iteration that processed `register(svc)` at `t0` under jitter `j` -/
+def registered (s : State) (svc : Service) (t0 j : Nat) : State :=
+  (iter s { now := t0, jitter := j, cmds := [.register svc] }).1
+
+/-- the timely iterations from the registration to just before `T + 750` (`T = t0 + j`) -/
+def probingTimes (T : Nat) (pre0 pre1 pre2 pre3 : List Nat) : List Nat :=
+  (pre0 ++ [T]) ++ ((pre1 ++ [T + 250]) ++ ((pre2 ++ [T + 500]) ++ pre3))
+
+/-- ANNOUNCED TWICE, ONE SECOND APART - for ANY service and ANY daemon state.  A running daemon
+    (invariant `Inv`, interface `i` there once, unique keys and no renames in its registry, no
+    queued goodbye repeat a query) processes `register(svc)` at `t0` under jitter `j ≥ 1`; `svc`
+    requires probing, is a fresh `ServiceInfo` with fixed addresses, has an in-subnet address of
+    family `v4` on `i`, and none of its unique records of that family is held (not active, name
+    not probed).  Timely scheduler, no datagram and no other command: idle iterations at
+    `T = t0+j`, `T+250`, `T+500`, `T+750`, `T+1750` and at any other instants in between.  Then
+    the iteration at `T+750` sends the announcement - PTR (and subtype PTR), SRV, TXT and the
+    addresses of the family as answers - on `i` over that family, and the iteration at `T+1750`
+    sends it again (over a family in which the service has an address). -/
+theorem registration_announced_twice (s : State) (i : MyIntf) (l1 l2 : List MyIntf) (svc : Service) (t0 j : Nat) (v4 : Bool)
+    (hrun : s.stopped = false) (hinv : Inv s) (hi : IntfsOk s i l1 l2) (hok : RerunsOk s)
+    (hpn : KeysNodup (s.registry i.index).probing) (hnr : NoRen (s.registry i.index))
+    (hlen : Names.checkServiceNameLength svc.ty s.nameLenMax = .ok ()) (hauto : svc.addrAuto = false)
+    (hprobe : svc.probe = true) (hstatus : svc.status = []) (hne : addrsOn svc i v4 ≠ [])
+    (hfresh : ∀ a ∈ uniqueRecords svc i {} v4,
+      (s.registry i.index).isActive a = false ∧ alookup a.getName (s.registry i.index).probing = none)
+    (hj : j ≠ 0) (hfam : ∃ v4', i.hasFamily v4' = true)
+    (pre0 pre1 pre2 pre3 pre4 : List Nat)
+    (h0 : ∀ t ∈ pre0, t < t0 + j) (h1 : ∀ t ∈ pre1, t < t0 + j + 250) (h2 : ∀ t ∈ pre2, t < t0 + j + 500)
+    (h3 : ∀ t ∈ pre3, t < t0 + j + 750) (h4 : ∀ t ∈ pre4, t < t0 + j + 750 + 1000) :
+    Out.send i.index v4 none (announcePkt svc svc.fullname (uniqueRecords svc i {} v4)) ∈
+      (iter (idleRun j (registered s svc t0 j) (probingTimes (t0 + j) pre0 pre1 pre2 pre3)).1 (idle (t0 + j + 750) j)).2 ∧
+    SentAgain
+      (iter (idleRun j
+          (iter (idleRun j (registered s svc t0 j) (probingTimes (t0 + j) pre0 pre1 pre2 pre3)).1 (idle (t0 + j + 750) j)).1
+          pre4).1 (idle (t0 + j + 750 + 1000) j)).2 i svc := by
+  have hnc := hnr.1
+  have huq : ∀ v, uniqueRecords svc i (s.registry i.index) v = uniqueRecords svc i {} v :=
+    fun v => uniqueRecords_congr (r := {}) hnc svc i v
+  -- the state after the registration
+  have hplain : ({ now := t0, jitter := j, cmds := [.register svc] } : Input).plain :=
+    ⟨fun _ h => by simp at h, fun x h => by
+      simp only [List.mem_cons, Command.register.injEq, List.not_mem_nil, or_false] at h
+      subst h; exact hstatus⟩
+  have hinv1 : Inv (registered s svc t0 j) := iter_inv s _ hinv hplain
+  have hent1 : Entry (registered s svc t0 j) (lower svc.fullname) svc := registration_entry s svc t0 j hrun hlen hauto
+  -- every unique record of the family is probed, fresh at T = t0 + j
+  have hall1 : AllProbed (registered s svc t0 j) i l1 l2 svc v4 (t0 + j) (t0 + j) := by
+    intro a ha
+    obtain ⟨hina, hfra⟩ := hfresh a ha
+    obtain ⟨b, hm, hbn, hg, _, _⟩ := registration_creates_probe s i l1 l2 svc t0 j v4 a a.getName hrun hi hok hpn hnr hlen hauto
+      hprobe hne (by rw [huq]; exact ha) rfl hina hfra
+    simp only [hj, ↓reduceIte] at hg
+    exact ⟨b, _, hm, hbn, by simpa [Registry.isActive] using hina, hg⟩
+  -- ... and still so just before T + 750
+  have hallk : AllProbed (idleRun j (registered s svc t0 j) (probingTimes (t0 + j) pre0 pre1 pre2 pre3)).1 i l1 l2 svc v4
+      (t0 + j) (t0 + j + 750) := by
+    intro a ha
+    obtain ⟨b, A, hm, hbn, hA, hg⟩ := hall1 a ha
+    exact ⟨b, A, hm, hbn, hA, idleRun_to_end j i l1 l2 a.getName (t0 + j) _ _ hg hfam pre0 pre1 pre2 pre3 h0 h1 h2 h3⟩
+  have hinvk := idleRun_inv j (probingTimes (t0 + j) pre0 pre1 pre2 pre3) _ hinv1
+  have hentk := idleRun_entry j (lower svc.fullname) svc (probingTimes (t0 + j) pre0 pre1 pre2 pre3) _ hent1
+  -- the first announcement
+  obtain ⟨hsend, hann, hrer⟩ := iter_idle_announces _ i l1 l2 svc v4 (t0 + j) j hinvk hentk hprobe hne (srvOf svc)
+    (srvOf_mem svc i) hallk
+  refine ⟨hsend, ?_⟩
+  -- the bundle after it, carried to the second announcement
+  obtain ⟨_, _, _, _, _, hgk⟩ := hallk (srvOf svc) (srvOf_mem svc i v4)
+  have hafter : After (iter (idleRun j (registered s svc t0 j) (probingTimes (t0 + j) pre0 pre1 pre2 pre3)).1
+      (idle (t0 + j + 750) j)).1 i l1 l2 svc (t0 + j + 750 + 1000) :=
+    ⟨iter_idle_running _ _ j hgk.running, ⟨(iter_idle_intfs _ _ j hgk.running).trans hgk.intfs.split, hgk.intfs.other⟩,
+      iter_inv _ _ hinvk (idle_plain _ j), hann, hrer⟩
+  exact iter_idle_reannounces (After.run j pre4 _ hafter h4) hprobe _ j (Nat.le_refl _)
 
 /-! ### findings (the model mirrors the code; both agree on the witnesses in corpus/C07) -/
 
